@@ -518,6 +518,19 @@ func (i *interpreter) byteEq(a, b value) value {
 	if kindOf(a) != kindOf(b) {
 		return false
 	}
+	if d := i.w.domains; d != nil {
+		// a symbolic byte with a known alphabet never equals a concrete byte outside it
+		if sa, ok := a.(symVal); ok && okb {
+			if alpha, ok := d[sa.t]; ok && strings.IndexByte(alpha, cb) < 0 {
+				return false
+			}
+		}
+		if sb, ok := b.(symVal); ok && oka {
+			if alpha, ok := d[sb.t]; ok && strings.IndexByte(alpha, ca) < 0 {
+				return false
+			}
+		}
+	}
 	if _, ok := a.(opaque); ok {
 		panic(unsupported{"comparison of a formatted symbolic number"})
 	}
